@@ -18,12 +18,15 @@ PROP = {'streams': [('c16', 600, 60000)],
               'slice_complete',
               'deref_within',
               'level_sound_partial',
+              'level_sound_fragment',
               'level_sound_authorization',
               'level_sound_sets'],
  'assumptions': ['level_sound_partial / level_sound_authorization are proved for the WHOLE mirrored checker but on the typed AST and under two semantic '
                  'hypotheses that typechecker soundness would provide: `Kinds` (the Entity/Record annotation of every GetAttr/HasAttr target agrees '
                  'with the value it evaluates to) and `Faithful` (the typed AST with the typechecker\'s short-circuit simplifications evaluates like '
-                 'the policy condition, on store and slice); their derivation from typechecker acceptance + conformance (the full statement '
+                 'the policy condition, on store and slice); they are DERIVED from typechecker acceptance + conformance only for the '
+                 'connective-free part of the C03 fragment (`level_sound_fragment`: ./has chains through entities and records, literals, variables, '
+                 '!, -, + - *, ==, like, is); for the rest their derivation from typechecker acceptance + conformance (the full statement '
                  '`level_sound`, a def : Prop) is NOT proved - C03 proves typechecker soundness for a fragment only; that gap is covered by the '
                  'implementation-level search (slice vs full store on every generated accepted policy set)',
                  'the request is for the environment\'s action (`req.action = act`): the action-literal exception of the checker',
@@ -40,8 +43,9 @@ TEXT = ('Lean model of level validation: `annotate` (the type-annotated AST the 
  'n (expression and policy level); the slice is monotone and a sub-store of whole entities; key lemma: a dereference target of level k only evaluates '
  'to entities within k hops; `level_sound_partial`: no level errors at n => the typed expression evaluates over the level-n slice exactly as over the '
  'store, lifted to isAuthorized (same decision, determining and erroring policies) - under the hypotheses that the Entity/Record annotations agree '
- 'with run-time values and that the typed AST evaluates like the condition (both consequences of typechecker soundness, not derived here: full '
- 'statement `level_sound` is stated only). Differential run: validate_with_level verdicts for n = 0..4 per policy and the level-n slice vs the model; '
+ 'with run-time values and that the typed AST evaluates like the condition (consequences of typechecker soundness; DERIVED from typechecker '
+ 'acceptance + conformance for the connective-free part of the C03 fragment - `level_sound_fragment`: ./has chains through entities and records, '
+ 'literals, variables, !, -, + - *, ==, like, is - and only assumed beyond it: the full statement `level_sound` is stated, not proved). Differential run: validate_with_level verdicts for n = 0..4 per policy and the level-n slice vs the model; '
  'implementation-level search: slice vs full store authorization for every accepted policy set on conformant requests/stores, monotonicity, '
  'non-vacuity counters (acceptance by level, slice != store, responses changed by a slice two levels lower).',
  'proof over a hand-written model; the link from typechecker acceptance + conformance to the two semantic hypotheses (Kinds, Faithful) is assumed '
